@@ -33,7 +33,8 @@ MANIFEST = {
             'fails at each step of _handle_task.'
             '  Second session: endings include death by signal; launching also fails right after the spawn (run-time limit registration) and the kill command of the late cancel check can fail inside the work routine.'
             "  Third session: tasks with a start-up limit whose 'started' reports arrive in one burst; the executor's watcher threads must be alive at the end of every history (executor-thread-died)."
-            '  Tasks with both a start-up and a generous run-time limit which outlive the start-up limit must end truthfully; a task whose process does not end on its own must be ended by its run-time limit - decided in cycles of the timeout watcher (counting proxy around its lock), not in seconds (left-behind/run-time-limit).',
+            '  Tasks with both a start-up and a generous run-time limit which outlive the start-up limit must end truthfully; a task whose process does not end on its own must be ended by its run-time limit - decided in cycles of the timeout watcher (counting proxy around its lock), not in seconds (left-behind/run-time-limit).'
+            '  A cancel request may be served completely (task killed and handed over by the control thread) before a launch step after the spawn fails.',
     'note': 'observes real threads: a history is reproduced by seed only '
             'statistically (replay re-runs it several times); the 1 s idle '
             'sleep of the timeout watcher is shortened to 20 ms; wall clock '
